@@ -43,7 +43,7 @@ class C16(Prop):
     all_branches = (["mod:ok", "mod:moduleExists", "wire:ok", "wire:unknownOutputPort", "wire:unknownInputPort",
                      "wire:typeMismatch", "wire:integrityViolation", "rawwire", "handler:ret", "handler:retnone",
                      "handler:raise", "handler:xraise", "handler:retd", "handler:retv", "handler:unknownModule",
-                     "handler:retobj", "handler:reenter", "handler:mut", "handler2", "exec2", "names"] + EDIT_TAGS + [ "ext", "caps",
+                     "handler:retobj", "handler:reenter", "handler:mut", "handler2", "exec2", "names", "extmod"] + EDIT_TAGS + [ "ext", "caps",
                      "caps2", "capsmut", "speccaps", "share:ok", "share:moduleExists", "mod2:ok", "flow:ok", "flow:typeMismatch",
                      "flow:integrityViolation", "exec:ok"]
                     # the per-delivery "Multiple values" guard is unreachable since fix 56841f4 (two wires into one port and
@@ -206,6 +206,8 @@ class C16(Prop):
                     lines.append(f"ext {m} {p} typed {dt} {rng.randrange(il, nI)} {k}")
                 else:
                     lines.append(f"ext {m} {p} typed {rng.choice([dt, rng.randrange(nD)])} {rng.randrange(nI)} {k}")
+        if rng.random() < 0.06:
+            lines.append(f"extmod {rng.choice(names + [9])}")      # an (empty) entry for a module, also an unknown one
         if rng.random() < 0.02:
             lines.append(f"ext {rng.choice(names)} 7 raw 1")
         if rng.random() < 0.01:
@@ -336,7 +338,7 @@ class C16(Prop):
                                              "wire 0 0 0 0", "handler 0 ret 0:raw:3", "setin 0 0 0 0", "delin 0 0",
                                              "addcap 0 1", "handler 0 retobj list", "handler 0 mut del", "handler 0 reenter",
                                              "handler 0 retobj nothing", "setout 0 0 0 1", "delout 0 0", "exec2 1",
-                                             "handler2 0 ret 0:raw:1"])
+                                             "handler2 0 ret 0:raw:1", "extmod 0", "extmod 9"])
                                  for _ in range(rng.randrange(1, 7))], "note": "malformed"}
             else:
                 yield self._gen_case(rng, wild=rng.random() < 0.3)
@@ -735,15 +737,17 @@ class C16(Prop):
                         o = self._exc(e)
                 elif op == "wire":
                     a, p, b, q = map(int, t[1:5])
+                    before = list(d.wires)
                     try:
                         nexec[0] += 1
                         if nexec[0] % 2:
-                            r = d.connect(mname(a), pname(p), mname(b), pname(q))
+                            d.connect(mname(a), pname(p), mname(b), pname(q))
                         else:
-                            r = d.connect(dst_port=pname(q), dst_module=mname(b), src_port=pname(p), src_module=mname(a))
-                        o = "ok" if r is None else "returned-something"
+                            d.connect(dst_port=pname(q), dst_module=mname(b), src_port=pname(p), src_module=mname(a))
+                        # accepted = no exception (whatever connect returns) and exactly this wire appended
+                        o = "ok" if list(d.wires) == before + [W.Wire(mname(a), pname(p), mname(b), pname(q))] else "ok-but-wires-wrong"
                     except Exception as e:
-                        o = self._exc(e)
+                        o = self._exc(e) + ("" if list(d.wires) == before else "+wires-changed")
                 elif op == "rawwire":
                     a, p, b, q = map(int, t[1:5])
                     d.wires.append(W.Wire(mname(a), pname(p), mname(b), pname(q)))
@@ -807,6 +811,9 @@ class C16(Prop):
                         raise ValueError
                     (spec.capabilities.add if op == "addcap" else spec.capabilities.discard)(self.CAP[int(t[2])])
                     o = "ok"
+                elif op == "extmod" and len(t) == 2:
+                    ext.setdefault(mname(int(t[1])), {})
+                    o = "ok"
                 elif op == "ext":
                     v, rest = self._val(t[3:])
                     if rest:
@@ -866,6 +873,8 @@ class C16(Prop):
                     obj = last_caps.get(int(t[1]))
                     cs = {self.CAP[int(c)] for c in t[3:]}
                     try:
+                        if obj is not None and not hasattr(obj, "clear"):
+                            obj = None                    # an immutable result cannot be tampered with: nothing to do
                         if obj is not None:
                             if t[2] == "sub":
                                 obj -= cs
@@ -902,7 +911,8 @@ class C16(Prop):
                     except Exception as e:
                         f1 = self._exc(e)
                     try:
-                        f2 = "ok" if s.require_flow_to(u) is None else "returned-something"
+                        s.require_flow_to(u)      # "require": returning (whatever) = allowed, raising = refused
+                        f2 = "ok"
                     except Exception as e:
                         f2 = self._exc(e)
                     o = f"{f1} {f2}"
@@ -978,7 +988,9 @@ class C16(Prop):
                 s = mods.get(a, ({}, {}, set()))[1].get(p)
                 u = mods.get(b, ({}, {}, set()))[0].get(q)
                 want = s is not None and u is not None and s[0] == u[0] and s[1] >= u[1]
-                if o not in ("ok", "raise:WiringError"):
+                if o in ("ok-but-wires-wrong", "raise:WiringError+wires-changed"):
+                    V("connect_iff_flow_rule", "accepted = exactly this wire appended, rejected = wires unchanged", o, idx)
+                elif o not in ("ok", "raise:WiringError"):
                     V("only_wiring_error", "ok or WiringError from connect", o, idx)
                 elif (o == "ok") != want:
                     V("connect_iff_flow_rule", f"accepted={want} for {s} -> {u}", o, idx)
@@ -1030,6 +1042,8 @@ class C16(Prop):
                         hd_[int(t[1])] = ("ret", {}, "RuntimeError")
                     else:
                         hd_[int(t[1])] = (t[2] if t[2] in ("raise", "retnone") else "ret", first, "RuntimeError")
+            elif op == "extmod":
+                ext[(int(t[1]), None)] = None        # an entry for the module itself (valid iff the module exists)
             elif op == "ext":
                 ext[(int(t[1]), int(t[2]))] = None if t[3] == "raw" else (int(t[4]), int(t[5]))
             elif op == "caps":
@@ -1180,7 +1194,7 @@ class C16(Prop):
         honest = all(h[0] not in ("raise", "nondict") and set(h[1]) == set(mods[m][1])
                      and all(lab is None or lab == mods[m][1][p] for p, lab in h[1].items())
                      for m, h in handlers.items() if m in mods)
-        ext_ok = all(k in nsrc and (lab is None or (lab[0] == mods[k[0]][0][k[1]][0] and lab[1] >= mods[k[0]][0][k[1]][1]))
+        ext_ok = all((k[0] in mods) if k[1] is None else k in nsrc and (lab is None or (lab[0] == mods[k[0]][0][k[1]][0] and lab[1] >= mods[k[0]][0][k[1]][1]))
                      for k, lab in ext.items())
         if not unsched and honest and ext_ok and not dangling and not (enforce is not False and unvetted_bad):
             V("schedulable_diagram_runs", "a report", st, idx)
